@@ -83,6 +83,7 @@ func (g *Gen) stdModel(v ssa.Value, name string, c *ssa.CallCommon, in ssa.Instr
 		return true
 	case "errors.Is", "github.com/pkg/errors.Is":
 		used()
+		g.needErrIs()
 		g.setVal(v, app("err_is", arg(0).S, arg(1).S))
 		return true
 	case "sync/atomic.AddUint64", "sync/atomic.AddInt64":
@@ -180,6 +181,17 @@ func (g *Gen) stdModel(v ssa.Value, name string, c *ssa.CallCommon, in ssa.Instr
 // atomicStep checks the declared two-state guarantee of an atomic location:
 // a contract-file line  "//@ guarantee <Type.field> <expr over old_v and new_v>".
 func (g *Gen) atomicStep(lv LV, st State, old, nv string, in ssa.Instruction, reach string) {
+	if g.stepVals == nil {
+		g.stepVals = map[string][2]T{}
+	}
+	oldN := g.define("step.old", lv.so, old)
+	g.stepVals[lv.heap] = [2]T{{S: oldN, So: lv.so}, {S: nv, So: lv.so}}
+	if rg, ok := g.prog.ranges[lv.heap]; ok {
+		env := g.envAt(st, st, g.pkg, map[string]T{"v": {S: oldN, So: lv.so}})
+		t := env.compileBool(rg.Expr)
+		g.reportSpecErrors(env, rg)
+		g.assume(t.S)
+	}
 	gu, ok := g.prog.guarantees[lv.heap]
 	if !ok {
 		return
